@@ -87,6 +87,14 @@ def model_programs(seed, n, tids, apply=True):
         else:
             bases = [[[], [[idx[(x, "")], "+"]]] for x in names]
             labels = [SPINLESS_LABELS[sym]] * nsites
+        if nsites >= 2 and rng.random() < 0.5:
+            # one site lists its occupation states in another order: the sites then have DIFFERENT charge maps
+            s0 = rng.randrange(nsites)
+            order = list(range(len(bases[s0])))
+            rng.shuffle(order)
+            bases[s0] = [bases[s0][o] for o in order]
+            labels = [list(l) for l in labels]
+            labels[s0] = [labels[s0][o] for o in order]
         progs.append({"driver": "localops", "tid": tids(), "sym": sym, "modes": modes, "terms": terms, "terms2": terms2,
                       "bases": bases, "labels": labels, "apply": apply, "max_states": 16 if spinful else 8})
     return progs
